@@ -91,6 +91,24 @@ func init() {
 	mut("C16", "leftover-batch-dropped", "chain/auth_batch.go", "\t\tfor _, item := range bw.bv.Done() {\n\t\t\ta.job.Go(item)\n\t\t\ta.log.Debug(\"enqueued batch for processing during done\")\n\t\t}", "\t\t_ = bw.bv.Done()", "last partial batch never verified")
 	mut("C16", "unbatched-auth-skipped", "chain/auth_batch.go", "\t\ta.job.Go(func() error { return auth.Verify(context.TODO(), digest) })\n\t\treturn", "\t\ta.job.Go(func() error { _ = context.TODO(); return nil })\n\t\treturn", "auth types without a batch verifier are never verified")
 
+	bld := "chain/builder.go"
+	mut("C02", "builder-height-from-parent", bld, "\tif err := tsv.Insert(ctx, heightKey, binary.BigEndian.AppendUint64(nil, height)); err != nil {", "\tif err := tsv.Insert(ctx, heightKey, binary.BigEndian.AppendUint64(nil, parent.Hght)); err != nil {", "built block stores the parent's height")
+	mut("C02", "builder-commit-before-consume", bld, "\t\t\t\t// Update block with new transaction\n\t\t\t\ttsv.Commit()\n\t\t\t\tblockTransactions = append(blockTransactions, tx)", "\t\t\t\t// Update block with new transaction\n\t\t\t\tblockTransactions = append(blockTransactions, tx)", "included transaction's writes never reach the block state")
+	mut("C02", "builder-timestamp-now", bld, "\tif err := tsv.Insert(ctx, timestampKey, binary.BigEndian.AppendUint64(nil, uint64(timestamp))); err != nil {", "\tif err := tsv.Insert(ctx, timestampKey, binary.BigEndian.AppendUint64(nil, uint64(time.Now().UnixMilli()))); err != nil {", "state timestamp differs from header timestamp")
+	mut("C11", "builder-state-timestamp-now", bld, "\tif err := tsv.Insert(ctx, timestampKey, binary.BigEndian.AppendUint64(nil, uint64(timestamp))); err != nil {", "\tif err := tsv.Insert(ctx, timestampKey, binary.BigEndian.AppendUint64(nil, uint64(time.Now().UnixMilli()))); err != nil {", "state timestamp differs from header timestamp")
+	mut("C09", "builder-ignores-repeat-flags", bld, "\t\t\tif dup.Contains(i) {\n\t\t\t\tcontinue\n\t\t\t}", "\t\t\t_ = dup", "repeated transactions included in built blocks")
+	mut("C09", "builder-repeat-error-ignored", bld, "\t\tif err != nil {\n\t\t\trestorable = append(restorable, txs...)\n\t\t\tbreak\n\t\t}\n\n\t\te := executor.New(", "\t\tif err != nil {\n\t\t\trestorable = append(restorable, txs[:0]...)\n\t\t}\n\n\t\te := executor.New(", "batch executed although the repeat check failed")
+	mut("C12", "builder-consume-result-ignored", bld, "\t\t\t\tif ok, dimension := feeManager.Consume(result.Units, maxUnits); !ok {", "\t\t\t\tif ok, dimension := feeManager.Consume(result.Units, maxUnits); !ok && stop {", "transaction that does not fit is included")
+	mut("C12", "verifier-consume-result-ignored", proc, "\t\tif ok, d := feeManager.Consume(units, r.GetMaxBlockUnits()); !ok {", "\t\tif ok, d := feeManager.Consume(units, r.GetMaxBlockUnits()); !ok && numTxs == 0 {", "block above the unit limit verifies")
+
+	tsvf := "state/tstate/tstate_view.go"
+	mut("C05", "read-needs-no-permission", tsvf, "\tif !ts.checkScope(ctx, key, state.Read) {\n\t\treturn nil, ErrInvalidKeyOrPermission\n\t}\n\tk := string(key)\n\treturn ts.getValue(ctx, k)", "\tk := string(key)\n\treturn ts.getValue(ctx, k)", "undeclared keys readable")
+	mut("C05", "remove-checks-read-only", tsvf, "\t// Removing requires writing & deleting that key, so we pass state.Write\n\tif !ts.checkScope(ctx, key, state.Write) {", "\t// Removing requires writing & deleting that key, so we pass state.Write\n\tif !ts.checkScope(ctx, key, state.Read) {", "read permission suffices to delete")
+	mut("C05", "create-skips-allocate", tsvf, "\t\tif !ts.checkScope(ctx, key, state.Allocate) {\n\t\t\treturn ErrInvalidKeyOrPermission\n\t\t}\n", "", "write permission suffices to create a key")
+	mut("C05", "has-is-intersection", "state/keys.go", "\treturn require&^p == 0", "\treturn require&p != 0", "any shared permission bit grants access")
+	mut("C12", "consume-limit-off-by-one", "internal/fees/manager.go", "\t\tif consumed > l[i] {\n\t\t\treturn false, i\n\t\t}", "\t\tif consumed > l[i]+1 {\n\t\t\treturn false, i\n\t\t}", "block may exceed the unit limit by one")
+	mut("C12", "consume-single-phase", "internal/fees/manager.go", "\t\tif consumed > l[i] {\n\t\t\treturn false, i\n\t\t}\n\t}", "\t\tif consumed > l[i] {\n\t\t\treturn false, i\n\t\t}\n\t\tf.setLastConsumed(i, consumed)\n\t}", "partial consumption on failure")
+
 	vw := "internal/validitywindow/validitywindow.go"
 	mut("C10", "expiry-boundary", vw, "case containerTimestamp < executionTimestamp:", "case containerTimestamp <= executionTimestamp:", "expiry equal to block time rejected")
 	mut("C10", "future-boundary", vw, "case containerTimestamp > executionTimestamp+validityWindow:", "case containerTimestamp >= executionTimestamp+validityWindow:", "upper boundary off by one")
